@@ -61,10 +61,19 @@ HARNESS = {
     'c10': {'args': [('ident', 'u8x16')], 'bound': 'none (all 16-byte idents)', 'assume': 'true', 'call': 'check_c10(&ident)', 'unwind': 6},
     'hash': {'args': [('buf', 'u8x5'), ('len', 'usize')], 'bound': 'name <= 5 bytes', 'assume': 'len <= 5', 'call': 'check_hash(&buf[..len])', 'unwind': 7},
 }
-# the stream parser's oracle is searched by a bounded NATIVE enumeration (Kani cannot run HashMap-based code here)
-STREAM_N = int(os.environ.get('VERIF_STREAM_CASES', '150000'))
+# oracles searched by a bounded NATIVE enumeration (Kani cannot run HashMap-based code here and does not finish the larger
+# slice-parser oracles): a stated family of pseudo-random structured inputs with a fixed seed; only ever used to FIND a failing input
 STREAM_SEED = 20261003
-NATIVE = {'stream': {'bound': '%d pseudo-random ELF64/LE files (seed %d) of <= 490 bytes from the family of kani/replay_src/stream_oracle.rs::enumerate: 0-3 section headers, 0-1 program header, escapes, bad links/names/sizes, truncation, one injected I/O fault; native enumeration, not Kani' % (STREAM_N, STREAM_SEED)}}
+def _n(env, default): return int(os.environ.get(env, default))
+NATIVE = {
+    'stream': {'enum': 'stream_oracle::enumerate', 'check': 'stream_oracle::check_stream(c)', 'n': _n('VERIF_STREAM_CASES', '150000'),
+               'family': 'ELF64/LE files of <= 490 bytes from kani/replay_src/stream_oracle.rs::enumerate: 0-3 section headers, 0-1 program header, numbering escapes, bad links/names/sizes, truncation, one injected I/O fault'},
+    'c20n': {'enum': 'stream_oracle::enumerate', 'check': 'slice_oracle::check_c20_file(&c.file[..c.cut.min(c.file.len())])', 'n': _n('VERIF_STREAM_CASES', '150000'),
+             'family': 'the same ELF64/LE files as the stream oracle, through the slice parser: by-name lookup against a manual scan, typed views against section_data, find_common_data against the targeted accessors'},
+    'c13n': {'enum': 'slice_oracle::enumerate_symver', 'check': 'slice_oracle::check_symver(c)', 'n': _n('VERIF_SYMVER_CASES', '300000'),
+             'family': 'version sections from kani/replay_src/slice_oracle.rs::enumerate_symver: 1-4 versym entries, 0-3 verneed records with one auxiliary record each, 0-3 verdef records, forward/zero/out-of-range links, hidden bits, unreadable strings; get_requirement/get_definition against a reference resolution'},
+}
+for _k, _v in NATIVE.items(): _v['bound'] = '%d pseudo-random cases (seed %d): %s; native enumeration, not Kani' % (_v['n'], STREAM_SEED, _v['family'])
 for _i, _t in enumerate(['u8', 'u16', 'u32', 'u64', 'i32', 'i64']):
     HARNESS['c04_' + _t] = {'args': [('buf', 'u8x12'), ('len', 'usize'), ('off', 'usize'), ('s', 'u8')], 'bound': 'buffer <= 12 bytes (a read touches <= 8)',
                             'assume': 'len <= 12 && s < 4', 'call': 'check_c04(&buf[..len], off, %d, s)' % _i, 'unwind': 10}
@@ -153,8 +162,8 @@ def setup(tmp):
     checks = '\n'.join(l for l in checks.splitlines() if not l.startswith('//!')) + '\n'
     checks = checks.replace('include!("layout_oracle.rs");', layout_oracle())
     # route the hand-written Err(format!(..)) through the cheap path under Kani as well
-    open(os.path.join(tmp, 'src', 'lib.rs'), 'w').write(LIB_HEAD + checks + gen_harness_rs(hs) + '\n#[cfg(not(kani))] pub mod stream_oracle;\n')
-    shutil.copy(os.path.join(ROOT, 'kani', 'replay_src', 'stream_oracle.rs'), os.path.join(tmp, 'src', 'stream_oracle.rs'))
+    open(os.path.join(tmp, 'src', 'lib.rs'), 'w').write(LIB_HEAD + checks + gen_harness_rs(hs) + '\n#[cfg(not(kani))] pub mod stream_oracle;\n#[cfg(not(kani))] pub mod slice_oracle;\n')
+    for f_ in ('stream_oracle.rs', 'slice_oracle.rs'): shutil.copy(os.path.join(ROOT, 'kani', 'replay_src', f_), os.path.join(tmp, 'src', f_))
     open(os.path.join(tmp, 'Cargo.toml'), 'w').write('[package]\nname = "elf-verif-replay"\nversion = "0.1.0"\nedition = "2021"\n\n[dependencies]\nelf = { path = "%s" }\n\n[lints.rust]\nunexpected_cfgs = { level = "allow", check-cfg = [\'cfg(kani)\'] }\n\n[workspace]\n' % os.path.join(tmp, 'elf'))
     return hs
 
@@ -188,39 +197,45 @@ def search_native(harness, timeout=420):
     tmp = tempfile.mkdtemp(prefix='verif_replay_')
     try:
         setup(tmp)
+        nv = NATIVE[harness]
         os.makedirs(os.path.join(tmp, 'src', 'bin'), exist_ok=True)
-        open(os.path.join(tmp, 'src', 'bin', 'stream_search.rs'), 'w').write('''use elf_verif_replay::stream_oracle::*;
+        open(os.path.join(tmp, 'src', 'bin', 'native_search.rs'), 'w').write('''use elf_verif_replay::*;
 fn main() {
     std::panic::set_hook(Box::new(|_| {}));
-    for (i, c) in enumerate(%d, %d).iter().enumerate() {
-        let r = std::panic::catch_unwind(std::panic::AssertUnwindSafe(|| check_stream(c)));
-        let msg = match r { Ok(Ok(())) => continue, Ok(Err(e)) => e, Err(_) => "the stream parser panicked".to_string() };
-        println!("FOUND {} cut={} fail_at={} short_read={} early_eof={} file={:?}", i, c.cut, c.fail_at, c.short_read, c.early_eof, c.file);
+    for (i, c) in %s(%d, %d).iter().enumerate() {
+        let r = std::panic::catch_unwind(std::panic::AssertUnwindSafe(|| %s));
+        let msg = match r { Ok(Ok(())) => continue, Ok(Err(e)) => e, Err(_) => "the code under test panicked".to_string() };
+        println!("FOUND {}", i);
+        println!("CASE {:?}", c);
         println!("MSG {}", msg);
         std::process::exit(1);
     }
     println!("NONE");
 }
-''' % (STREAM_N, STREAM_SEED))
+''' % (nv['enum'], nv['n'], STREAM_SEED, nv['check']))
         env = dict(os.environ, CARGO_NET_OFFLINE='true', CARGO_TARGET_DIR=os.path.join(tmp, 'target'), RUSTFLAGS='-Awarnings')
         t0 = time.time()
-        rc_, out = run_group(['cargo', 'run', '--offline', '-q', '--release', '--bin', 'stream_search'], tmp, env, timeout)
+        rc_, out = run_group(['cargo', 'run', '--offline', '-q', '--release', '--bin', 'native_search'], tmp, env, timeout)
         wall = round(time.time() - t0, 1)
-        bound = NATIVE[harness]['bound']
+        bound = nv['bound']
         if rc_ is None: return {'status': 'timeout', 'bound': bound, 'wall_s': wall}
-        m = re.search(r'^FOUND (\d+) cut=(\d+) fail_at=(\d+) short_read=(true|false) early_eof=(true|false) file=\[([0-9, ]*)\]', out, re.M)
+        m = re.search(r'^FOUND (\d+)$', out, re.M)
         if not m:
             return {'status': 'no-counterexample-within-bound' if 'NONE' in out else 'search-failed', 'bound': bound, 'wall_s': wall, 'tail': out[-600:] if 'NONE' not in out else ''}
-        case = {'index': int(m.group(1)), 'cut': int(m.group(2)), 'fail_at': int(m.group(3)), 'short_read': m.group(4) == 'true', 'early_eof': m.group(5) == 'true', 'file': [int(x) for x in m.group(6).split(',') if x.strip()]}
-        main = ('use elf_verif_replay::stream_oracle::*;\nfn main() {\n    let c = StreamCase { file: vec!%s, cut: %d, fail_at: %d, short_read: %s, early_eof: %s };\n'
-                '    match check_stream(&c) {\n        Ok(()) => println!("replay: the real crate behaves as specified on this input"),\n'
-                '        Err(e) => { println!("REPLAY FAILS on the real crate: {}", e); std::process::exit(1); }\n    }\n}\n') % (json.dumps(case['file']), case['cut'], case['fail_at'], 'true' if case['short_read'] else 'false', 'true' if case['early_eof'] else 'false')
+        idx = int(m.group(1))
+        mc = re.search(r'^CASE (.*)$', out, re.M)
+        case = {'family': nv['enum'], 'cases': nv['n'], 'seed': STREAM_SEED, 'index': idx, 'case': (mc.group(1)[:6000] if mc else '')}
+        main = ('use elf_verif_replay::*;\nfn main() {\n    // case #%d of the family %s(%d, %d) -- regenerated deterministically; its contents are in the replay file\n'
+                '    let cases = %s(%d, %d);\n    let c = &cases[%d];\n'
+                '    match %s {\n        Ok(()) => println!("replay: the real crate behaves as specified on this input"),\n'
+                '        Err(e) => { println!("REPLAY FAILS on the real crate: {}", e); std::process::exit(1); }\n    }\n}\n') % (idx, nv['enum'], nv['n'], STREAM_SEED, nv['enum'], nv['n'], STREAM_SEED, idx, nv['check'])
         open(os.path.join(tmp, 'src', 'bin', 'replay.rs'), 'w').write(main)
         r = subprocess.run(['cargo', 'run', '--offline', '-q', '--release', '--bin', 'replay'], cwd=tmp, env=env, capture_output=True, text=True, timeout=600)
         panicked = r.returncode not in (0, 1) and 'panicked at' in r.stderr
+        extra_src = ''.join('\n// ---- src/%s\n' % f + open(os.path.join(tmp, 'src', f)).read() for f in ('stream_oracle.rs', 'slice_oracle.rs'))
         return {'status': 'replayed-fails' if ((r.returncode == 1 and 'REPLAY FAILS' in r.stdout) or panicked) else 'replay-does-not-fail', 'bound': bound, 'wall_s': wall,
                 'inputs': case, 'replay_main': main, 'replay_output': (r.stdout[-1500:] + r.stderr[-500:]) if not panicked else ('REPLAY PANICS on the real crate: ' + r.stderr[-700:]),
-                'kani_cmd': 'cargo run --release --bin stream_search   (native enumeration)', 'lib_rs': open(os.path.join(tmp, 'src', 'lib.rs')).read() + '\n// ---- src/stream_oracle.rs\n' + open(os.path.join(tmp, 'src', 'stream_oracle.rs')).read()}
+                'kani_cmd': 'cargo run --release --bin native_search   (native enumeration)', 'lib_rs': open(os.path.join(tmp, 'src', 'lib.rs')).read() + extra_src}
     finally:
         shutil.rmtree(tmp, ignore_errors=True)
 
@@ -264,6 +279,8 @@ PAIRING = [
     (r'^C10\.(verify_ident|parse_ident|from_ei_data)\.', lambda m: 'c10'),
     (r'^(C12\.sysv_hash|C11\.gnu_hash|proof:hash::sysv_hash|proof:hash::gnu_hash)', lambda m: 'hash'),
     (r'^(C07|C08|C17)\.|^C05\.stream_|^C10\.open_stream|^(safety|proof):elf_stream::', lambda m: 'stream'),
+    (r'^C20\.|^proof:elf_bytes::ElfBytes::(find_common_data|symbol_table|dynamic_symbol_table|dynamic|section_header_by_name)', lambda m: 'c20n'),
+    (r'^C13\.(get_requirement|get_definition|names)\.', lambda m: 'c13n'),
     (r'^C14\.(note|iter)\.', lambda m: ['c14_a4', 'c14_a8', 'c14_a3']),
     (r'^C03\.(section_range|segment_range|section_data|segment_data)\.', lambda m: 'c03_range'),
     (r'^C1[36]\.VerNeedIterator\.next\.', lambda m: 'c13_need'),
